@@ -49,3 +49,165 @@ Proof.
     destruct (list_eqb (e :: es) dm) eqn:E1; [inv H1; apply list_eqb_eq in E1; congruence|].
     destruct (elim_bounds (e :: es) dm) eqn:E2; inv H1. reflexivity.
 Qed.
+
+(* ---------- C11: the two loading paths agree; the window is a slice; chunking is invisible ---------- *)
+
+Lemma slice_zip_rows cols n a b :
+  0 <= a <= b -> b <= Z.of_nat n ->
+  slice a b (zip_rows cols n) = zip_rows (map (slice a b) cols) (Z.to_nat (b - a)).
+Proof.
+  intros H1 H2. unfold slice at 1, zip_rows, firstnz, skipnz.
+  rewrite skipn_map, firstn_map. rewrite skipn_seq, firstn_seq by lia.
+  cbn [Nat.add]. rewrite <- (map_seq_shift _ (Z.to_nat a) (Z.to_nat (b - a))).
+  apply map_ext_in. intros i Hi. apply in_seq in Hi. rewrite map_map. apply map_ext. intros c.
+  unfold slice, firstnz, skipnz. rewrite nth_firstn_lt by lia. rewrite nth_skipn_add. reflexivity.
+Qed.
+
+(* the direct-slice path of a structured source equals the generic per-channel path *)
+Theorem load_paths_agree cols n from_idx start stop :
+  0 <= from_idx -> 0 <= start <= stop -> from_idx + stop <= Z.of_nat n ->
+  load_direct (zip_rows cols n) from_idx start stop = load_generic cols from_idx start stop.
+Proof.
+  intros H1 H2 H3. unfold load_direct, load_generic. rewrite slice_zip_rows by lia. f_equal. f_equal. lia.
+Qed.
+
+(* loading rows [start, stop) of the window [from, to) is slicing the pre-sliced data *)
+Theorem load_window cols from_idx to_idx start stop :
+  0 <= from_idx -> 0 <= start <= stop -> from_idx + stop <= to_idx ->
+  load_generic cols from_idx start stop = load_generic (map (slice from_idx to_idx) cols) 0 start stop.
+Proof.
+  intros H1 H2 H3. unfold load_generic. rewrite map_map. f_equal. apply map_ext. intros c.
+  cbn [Z.add]. apply slice_slice; lia.
+Qed.
+
+Lemma chunk_ranges_bounds n chunk : 0 <= n -> match chunk with Some c => 0 < c | None => True end ->
+  Forall (fun '(a, b) => 0 <= a <= b /\ b <= n) (chunk_ranges n chunk).
+Proof.
+  intros Hn Hc. unfold chunk_ranges. destruct chunk as [c|]; [|constructor; [lia | constructor]].
+  pose proof (Z.div_pos n c Hn Hc) as Hq0. pose proof (Z.mod_pos_bound n c Hc) as Hr.
+  pose proof (Z.div_mod n c ltac:(lia)) as Hdm.
+  remember (n / c) as q eqn:Eq. remember (n mod c) as r eqn:Er.
+  apply Forall_app. split.
+  - assert (G : forall k i, 0 <= i -> (i + Z.of_nat k) * c <= n -> Forall (fun '(a, b) => 0 <= a <= b /\ b <= n) (full_chunks k i c)).
+    { induction k as [|k IH]; intros i Hi Hle; [constructor|]. cbn [full_chunks]. constructor; [nia|]. apply IH; [lia | nia]. }
+    apply G; [lia|]. rewrite Z2Nat.id by lia. nia.
+  - destruct (0 <? r); [constructor; [nia | constructor] | constructor].
+Qed.
+
+From DV Require Import Proofs.OutputP.
+
+Lemma zlen_zip_rows cols n : zlen (zip_rows cols n) = Z.of_nat n.
+Proof. unfold zlen, zip_rows. rewrite map_length, seq_length. reflexivity. Qed.
+
+(* rows produced by the chunked generator over the window [from, to) = the pre-sliced data, whole; for every chunk size *)
+Theorem load_all_window cols from_idx to_idx chunk :
+  0 <= from_idx <= to_idx -> match chunk with Some c => 0 < c | None => True end ->
+  load_all (load_generic cols from_idx) (to_idx - from_idx) chunk
+  = zip_rows (map (slice from_idx to_idx) cols) (Z.to_nat (to_idx - from_idx)).
+Proof.
+  intros Hw Hc. unfold load_all.
+  set (n := to_idx - from_idx). set (W := zip_rows (map (slice from_idx to_idx) cols) (Z.to_nat n)).
+  assert (HW : zlen W = n) by (unfold W; rewrite zlen_zip_rows; lia).
+  transitivity (chunked W chunk); [|apply chunked_id; exact Hc]. unfold chunked. rewrite HW. f_equal.
+  apply map_ext_in. intros [a b] Hin.
+  pose proof (chunk_ranges_bounds n chunk ltac:(lia) Hc) as Hb. rewrite Forall_forall in Hb. specialize (Hb _ Hin). cbn in Hb.
+  rewrite (load_window cols from_idx to_idx a b) by lia.
+  unfold load_generic. cbn [Z.add]. unfold W. rewrite slice_zip_rows by lia. reflexivity.
+Qed.
+
+(* ---------- C13: index statistics ---------- *)
+
+Lemma in_insert_sorted x y l : In x (insert_sorted y l) <-> x = y \/ In x l.
+Proof.
+  induction l as [|z l IH]; cbn; [intuition|]. destruct (y <=? z); cbn; [intuition|]. rewrite IH. intuition.
+Qed.
+
+Lemma in_sort_z x l : In x (sort_z l) <-> In x l.
+Proof. induction l as [|y l IH]; cbn; [tauto|]. rewrite in_insert_sorted, IH. intuition. Qed.
+
+Lemma in_dedup_sorted x : forall l, In x (dedup_sorted l) <-> In x l.
+Proof.
+  induction l as [|a l IH]; [tauto|]. destruct l as [|b r]; [cbn; tauto|].
+  change (dedup_sorted (a :: b :: r)) with (if a =? b then dedup_sorted (b :: r) else a :: dedup_sorted (b :: r)).
+  destruct (a =? b) eqn:E.
+  - rewrite IH. apply Z.eqb_eq in E. subst. cbn. intuition.
+  - cbn [In]. rewrite IH. cbn. intuition.
+Qed.
+
+Lemma fold_min_spec x r : (forall y, In y (x :: r) -> fold_right Z.min x r <= y) /\ In (fold_right Z.min x r) (x :: r).
+Proof.
+  induction r as [|z r [IH1 IH2]]; cbn [fold_right].
+  - split; [intros y [<-|[]]; lia | left; reflexivity].
+  - split.
+    + intros y [<-|[<-|Hy]]; [specialize (IH1 x (or_introl eq_refl)) | | specialize (IH1 y (or_intror Hy))]; lia.
+    + destruct (Z.min_spec z (fold_right Z.min x r)) as [[_ ->]|[_ ->]]; [right; left; reflexivity|].
+      destruct IH2 as [<-|H]; [left; reflexivity | right; right; exact H].
+Qed.
+
+Lemma fold_max_spec x r : (forall y, In y (x :: r) -> y <= fold_right Z.max x r) /\ In (fold_right Z.max x r) (x :: r).
+Proof.
+  induction r as [|z r [IH1 IH2]]; cbn [fold_right].
+  - split; [intros y [<-|[]]; lia | left; reflexivity].
+  - split.
+    + intros y [<-|[<-|Hy]]; [specialize (IH1 x (or_introl eq_refl)) | | specialize (IH1 y (or_intror Hy))]; lia.
+    + destruct (Z.max_spec z (fold_right Z.max x r)) as [[_ ->]|[_ ->]]; [|right; left; reflexivity].
+      destruct IH2 as [<-|H]; [left; reflexivity | right; right; exact H].
+Qed.
+
+(* "uniform within the documented tolerance": every difference d satisfies (1 - d/s)^2 < 1/1000, s = s2/2 *)
+Definition within_tolerance (s2 d : Z) : Prop := 1000 * (s2 - 2 * d) * (s2 - 2 * d) < s2 * s2.
+
+Theorem index_stats_spec rows s :
+  index_stats rows = Some s ->
+  (forall y, In y rows -> is_min s <= y <= is_max s) /\ In (is_min s) rows /\ In (is_max s) rows
+  /\ (forall s2, is_spacing2 s = Some s2 ->
+        (2 <= length rows)%nat /\ ((forall d, In d (diffs rows) -> 2 * d = s2) \/ (s2 <> 0 /\ forall d, In d (diffs rows) -> within_tolerance s2 d)))
+  /\ (is_direction s = Some true -> (forall d, In d (diffs rows) -> 0 <= d) /\ exists d, In d (diffs rows) /\ d <> 0)
+  /\ (is_direction s = Some false -> (forall d, In d (diffs rows) -> d <= 0) /\ exists d, In d (diffs rows) /\ d <> 0)
+  /\ ((length rows < 2)%nat -> is_spacing2 s = None /\ is_direction s = None).
+Proof.
+  unfold index_stats. destruct rows as [|x r]; [discriminate|].
+  remember (diffs (x :: r)) as ds eqn:Hds. remember (dedup_sorted (sort_z ds)) as du eqn:Hdu.
+  remember (fold_right Z.min x r) as mn eqn:Hmn. remember (fold_right Z.max x r) as mx eqn:Hmx.
+  intros H. destruct s as [smin smax ssp sdir]. cbn [is_min is_max is_spacing2 is_direction].
+  assert (E1 : smin = mn) by congruence. assert (E2 : smax = mx) by congruence.
+  assert (E3 : ssp = match ds with [] => None | _ :: _ => spacing2_of ds du end) by congruence.
+  assert (E4 : sdir = match ds with [] => None | _ :: _ => direction_of du end) by congruence.
+  clear H. subst smin smax ssp sdir. subst mn mx.
+  destruct (fold_min_spec x r) as [Hmin1 Hmin2]. destruct (fold_max_spec x r) as [Hmax1 Hmax2].
+  assert (Hin : forall d, In d du <-> In d ds) by (intros d; rewrite Hdu, in_dedup_sorted, in_sort_z; tauto).
+  assert (Hlen : ds <> [] -> (2 <= length (x :: r))%nat).
+  { rewrite Hds. destruct r; cbn; [congruence | lia]. }
+  clear Hdu.
+  assert (Hex : forallb (Z.eqb 0) du = false -> exists d, In d ds /\ d <> 0).
+  { intros E0. assert (Hx : exists d, In d du /\ d <> 0).
+    { clear -E0. induction du as [|a l IH]; [discriminate|]. cbn [forallb] in E0. destruct (0 =? a) eqn:Ea; cbn [andb] in E0.
+      - destruct (IH E0) as (d & Hd & Hn). exists d. split; [right; exact Hd | exact Hn].
+      - exists a. split; [left; reflexivity | lia]. }
+    destruct Hx as (d & Hd & Hn). exists d. split; [apply Hin; exact Hd | exact Hn]. }
+  split; [intros y Hy; split; [apply Hmin1 | apply Hmax1]; assumption|].
+  split; [exact Hmin2|]. split; [exact Hmax2|].
+  split.
+  { intros s2 Hs. destruct ds as [|d0 ds'] eqn:Eds; [discriminate|]. split; [apply Hlen; discriminate|].
+    unfold spacing2_of in Hs. destruct du as [|u [|u2 du']] eqn:Edu.
+    - exfalso. specialize (Hin d0). cbn in Hin. tauto.
+    - inv Hs. left. intros d Hd. apply Hin in Hd. destruct Hd as [<-|[]]. reflexivity.
+    - destruct (median2 (d0 :: ds') =? 0) eqn:Em; [discriminate|].
+      destruct (forallb (fun d => 1000 * (median2 (d0 :: ds') - 2 * d) * (median2 (d0 :: ds') - 2 * d) <? median2 (d0 :: ds') * median2 (d0 :: ds')) (u :: u2 :: du')) eqn:Ef; [|discriminate].
+      inv Hs. right. split; [lia|].
+      intros d Hd. apply Hin in Hd. rewrite forallb_forall in Ef. specialize (Ef d Hd). unfold within_tolerance. lia. }
+  split.
+  { intros Hd. destruct ds as [|d0 ds'] eqn:Eds; [discriminate|]. unfold direction_of in Hd.
+    destruct (forallb (Z.eqb 0) du) eqn:E0; [discriminate|].
+    destruct (forallb (fun d => 0 <=? d) du) eqn:E1; [|destruct (forallb (fun d => d <=? 0) du); discriminate].
+    split; [|apply Hex; reflexivity].
+    intros d Hi. apply Hin in Hi. rewrite forallb_forall in E1. specialize (E1 d Hi). lia. }
+  split.
+  { intros Hd. destruct ds as [|d0 ds'] eqn:Eds; [discriminate|]. unfold direction_of in Hd.
+    destruct (forallb (Z.eqb 0) du) eqn:E0; [discriminate|].
+    destruct (forallb (fun d => 0 <=? d) du) eqn:E1; [discriminate|].
+    destruct (forallb (fun d => d <=? 0) du) eqn:E2; [|discriminate].
+    split; [|apply Hex; reflexivity].
+    intros d Hi. apply Hin in Hi. rewrite forallb_forall in E2. specialize (E2 d Hi). lia. }
+  intros Hl. rewrite Hds. destruct r as [|y r']; [split; reflexivity | cbn in Hl; lia].
+Qed.
